@@ -23,13 +23,17 @@ SINGLE, ITERATE = 0, 1
 
 
 def fam_queue(E, np_, nc, fault_kinds, close_modes=2, real=False, pmax=2, placements=True,
-              victims=None, nputs=2, burst=False, ngets=2, single_only=False, late=False):
+              victims=None, nputs=2, burst=False, ngets=2, single_only=False, late=False,
+              slow=False):
     # burst: only the date of the first put is symbolic, the others follow at once, so that a
     # backlog builds up in the buffer before the consumers arrive / the queue is closed
     gaps = [[E.num('g%d_%d' % (i, j), 0, 15, real=real) if not (burst and j) else E.const(0)
              for j in range(nputs)] for i in range(np_)]
     starts = [E.num('s%d' % i, 0, 15, real=real) for i in range(nc)]
-    ckind = [SINGLE if single_only else E.pick('ck%d' % i, 2) for i in range(nc)]
+    ckind = [SINGLE if single_only else (ITERATE if slow else E.pick('ck%d' % i, 2))
+             for i in range(nc)]
+    # slow: the consumers iterate and need w per item, so that a backlog builds up behind them
+    w = E.num('w', 0, 10, real=real) if slow else None
     closing = E.pick('closing', close_modes) == 1
     z = E.num('z', 0, 40, real=real) if closing else None
     fault = Fault(E, 'f', fault_kinds, hi=40, pmax=pmax, real=real, placements=placements)
@@ -74,6 +78,8 @@ def fam_queue(E, np_, nc, fault_kinds, close_modes=2, real=False, pmax=2, placem
                 log(name, 'get-call')
                 async for item in q:
                     log(name, 'got', item)
+                    if slow:
+                        await (time + w)
                     log(name, 'get-call')
                 log(name, 'closed')
         return run
@@ -251,6 +257,16 @@ FAMILIES = [
            bounds='1 producer x 1 put, 2 receivers asking once (one of them faulted at (c,p), also '
                   'as the designated next receiver with nobody queued behind it), then - long '
                   'after - two further receivers (new activities) and two further items'),
+    Family('slow_iteration', fam_queue,
+           quick=dict(np_=1, nc=1, nputs=3, slow=True, close_modes=1,
+                      fault_kinds=[Fault.NONE, Fault.CANCEL, Fault.CLOSE], pmax=1, placements=False,
+                      victims=['c0']),
+           thorough=dict(np_=1, nc=2, nputs=3, slow=True, close_modes=2,
+                         fault_kinds=ALLF, pmax=2, victims=['c0']),
+           reach=['none', 'cancel', 'close'],
+           bounds='1 producer x 3 puts at symbolic gaps, 1 (thorough 2) iterating consumer needing '
+                  'w in [0,10] per item (a backlog builds up behind it), cancelled / closed at (c,p) '
+                  'in the middle of the backlog; the drainer must find every item not received'),
     Family('backlog', fam_queue,
            quick=dict(np_=1, nc=2, fault_kinds=[Fault.NONE], nputs=3, burst=True),
            thorough=dict(np_=1, nc=2, fault_kinds=[Fault.NONE, Fault.CANCEL], nputs=4, burst=True,
